@@ -29,6 +29,7 @@ struct IPt {
 
 struct CCell {
     std::vector<std::string> polys, paths, labels, refs, props;
+    int close_path_vertices = 0;  // consecutive, distinct path vertices at most one grid step apart (raw lists)
     // polygons excluded from `polys` because they are compared as regions: tag -> polygons
     std::map<uint64_t, std::vector<std::vector<IPt>>> region;
 };
@@ -99,6 +100,16 @@ inline bool norm_cycle(std::vector<IPt>& v) {
     }
     v = *std::min_element(cands.begin(), cands.end());
     return true;
+}
+
+inline int close_pairs(const std::vector<IPt>& v) {
+    int n = 0;
+    for (size_t i = 1; i < v.size(); i++) {
+        __int128 dx = v[i].x - v[i - 1].x, dy = v[i].y - v[i - 1].y;
+        __int128 d2 = dx * dx + dy * dy;
+        if (d2 > 0 && d2 <= 1) n++;
+    }
+    return n;
 }
 
 inline std::string pts_str(const std::vector<IPt>& v) {
@@ -268,6 +279,25 @@ inline std::string path_line(Mode mode, uint32_t layer, uint32_t dtype, std::vec
                              int64_t w2, int end, int64_t eu, int64_t ev, bool scale_width,
                              const std::vector<IPt>& rep, const std::string& props, bool& ok) {
     dedup(spine, false);
+    // the centre line is a curve, not a vertex list: a vertex in the interior of a straight run
+    // (exactly collinear, same direction) carries no information
+    {
+        std::vector<IPt> r;
+        for (auto& p : spine) {
+            while (r.size() >= 2) {
+                const IPt& a = r[r.size() - 2];
+                const IPt& b = r[r.size() - 1];
+                __int128 cr = (__int128)(b.x - a.x) * (p.y - b.y) - (__int128)(b.y - a.y) * (p.x - b.x);
+                __int128 dt = (__int128)(b.x - a.x) * (p.x - b.x) + (__int128)(b.y - a.y) * (p.y - b.y);
+                if (cr == 0 && dt > 0)
+                    r.pop_back();
+                else
+                    break;
+            }
+            r.push_back(p);
+        }
+        spine.swap(r);
+    }
     ok = spine.size() >= 2;
     std::string s = "W " + tag_str(layer, dtype) + " w2=" + std::to_string(w2);
     if (mode == OAS) {
@@ -378,6 +408,7 @@ inline CLib from_model(const model::MLib& m, const Options& opt) {
                 for (auto& o : offs) {
                     std::vector<IPt> sp;
                     for (auto& q : p.spine) sp.push_back(rgrid(model::Pt{q.x + o.x, q.y + o.y}));
+                    cc.close_path_vertices += close_pairs(sp);
                     bool ok;
                     std::string line = path_line(mode, p.layer, p.dtype, sp, w2, p.end, eu, ev,
                                                  p.scale_width, {}, props, ok);
